@@ -91,7 +91,7 @@ PROPS = {
  "C04": {
   "props_modules": ["Ps3.Props.C04"],
   "needs_binary": True,
-  "streams": [{"name": "c04", "bad_obs": BAD_OBS + r"|proc=0|alive=0|by=bad|exit=(?!clean)|mem=(?!ok)|served=false|served=short|served=open-failed|PANIC|CRASH", "timeout_quick": 400, "timeout_thorough": 3000},
+  "streams": [{"name": "c04", "bad_obs": BAD_OBS + r"|proc=0|alive=0|by=bad|exit=(?!clean)|mem=(?!ok)|fifo=(?!refused)|open=(?!refused)|tool=(?!error-exit)|served=false|served=short|served=open-failed|PANIC|CRASH", "timeout_quick": 400, "timeout_thorough": 3000},
               {"name": "c03", "bad_obs": BAD_OBS}, {"name": "viso"}],
   "rule": "c04: (A) hostile worlds served in-process and predicted response by response by the Lean model: PARAM.SFO wrong in 12 specific ways (truncated, bad magic, counts/offsets/lengths of 0, 2^31, 2^32-1, keys without terminator, bit flips) x TITLE_IDs of 0..40 bytes, region tables wrong in 9 ways (counts 0/1/256/2^32-1, truncated, overlapping, beyond the file, 255 regions) x 6 key-file situations, truncated 3k3y areas, names of 255 bytes / invalid UTF-8 / control characters, read geometries around every boundary incl. offsets >= 2^63 and lengths 2^32-1; "
           "(B) the REAL binary on such a root under hostile byte streams (random, mutated valid sessions, extreme fields, structure-aware opens of every hostile object through every view, floods of 30 concurrent clients): after each the process must run, a fresh connection must be served, a bystander connection must still receive its exact bytes; "
